@@ -240,6 +240,21 @@ func checkC18(c *Ctx) {
 		c.check(okCase, "C18-CASE", "errIfPrivate", "upper-case test", priv.Pos(), "error exactly when the first rune of the dot-stripped name is not upper case", "privacy test changed: "+why)
 	}
 
+	// the package-aware hash walker never hands the rest of the path to the package-less wrapper
+	if hwalker != nil {
+		wrapper := c.fn("SexpHash.nestedPathGetSet")
+		if wrapper != nil {
+			cs := callsOf(hwalker, wrapper)
+			pos := hwalker.Pos()
+			if len(cs) > 0 {
+				pos = cs[0].Pos()
+			}
+			c.check(len(cs) == 0, "C18-WALK", "SexpHash.nestedPathGetSetIn", "descent into nested hashes keeps the package", pos,
+				"nested hashes are walked by the same package-aware routine (no call to the wrapper that passes no package)",
+				"while walking hashes under a package, the rest of the path is handed to SexpHash.nestedPathGetSet, which passes no package: only the first hash level below a package is privacy-checked, members of hashes nested deeper are readable and assignable from outside")
+		}
+	}
+
 	// ---- C18-WM: callers of the unbounded walk
 	allowed := map[string]string{
 		"Stack.nestedPathGetSet": "package path walker (privacy-checked above)",
